@@ -41,7 +41,11 @@ BNames == [k \in {R.bnames[i].name : i \in 1..Len(R.bnames)} |->
 UserDictOk ==
   LET bn == [k \in {R.bnames[i].name : i \in 1..Len(R.bnames)} |-> R.bnames[CHOOSE i \in 1..Len(R.bnames) : R.bnames[i].name = k].display]
       acc == Accept(R.uattrs, R.uchords, bn)
-  IN \A u \in 1..Len(R.uses) : LET x == R.uses[u] IN
+  IN /\ (acc => /\ R.seqOk /\ Len(R.seqOns) = Len(R.seqKeys)      \* several chords in one run: each as if alone
+                 /\ \A q \in 1..Len(R.seqKeys) :
+                       BagOfSeqD(R.seqOns[q]) = ExpectedOns(Resolve(R.uattrs, R.uchords, bn, R.seqKeys[q], Len(R.uchords) + 1).bag))
+     /\ (~acc => ~R.seqOk)
+     /\ \A u \in 1..Len(R.uses) : LET x == R.uses[u] IN
        /\ x.terminated
        /\ IF acc
           THEN /\ x.ok                                             \* usable like a built-in
